@@ -147,6 +147,9 @@ func genC11(t *rapid.T) PairCase {
 	if gen.Chance(t, "pathTwins", 10) {
 		a, b = gen.PathTwins(t, a, b, p)
 	}
+	if gen.Chance(t, "repeatedBlocks", 4) {
+		a, b = gen.RepeatedBlocks(t, p)
+	}
 	if gen.Chance(t, "longTwins", 4) {
 		// two long strings with a long common prefix, as array members
 		n := gen.Pick(t, "prefixLen", []int{57, 250, 1017, 1100, 4097, 70000})
